@@ -10,11 +10,17 @@ __all__ = ['first_and_second_harmonic_function',
            'fit_first_and_second_harmonics', 'fit_upper_harmonic']
 
 
-def _least_squares_fit(optimize_func, parameters):
+def _least_squares_fit(optimize_func, parameters, jacobian=None):
     # call the least squares fitting
     # function and handle the result.
 
-    solution = leastsq(optimize_func, parameters, full_output=True)
+    # The harmonic functions are linear in their coefficients, so the
+    # Jacobian is known exactly. A finite-difference Jacobian (the
+    # leastsq default) is lost in rounding when the intensities are
+    # many orders of magnitude larger than the unit starting
+    # amplitudes, and the fit then returns its starting values.
+    solution = leastsq(optimize_func, parameters, Dfun=jacobian,
+                       full_output=True)
 
     if solution[4] > 4:
         raise RuntimeError('Error in least squares fit: ' + solution[3])
@@ -89,8 +95,14 @@ def fit_first_and_second_harmonics(phi, intensities):
         return first_and_second_harmonic_function(
             phi, np.array([x[0], x[1], x[2], x[3], x[4]])) - intensities
 
+    jac = np.transpose([np.ones_like(phi, dtype=float), np.sin(phi),
+                        np.cos(phi), np.sin(2 * phi), np.cos(2 * phi)])
+
+    def jacobian(x):
+        return jac
+
     return _least_squares_fit(optimize_func, [np.mean(intensities), a1, b1,
-                                              a2, b2])
+                                              a2, b2], jacobian=jacobian)
 
 
 def fit_upper_harmonic(phi, intensities, order):
@@ -131,4 +143,11 @@ def fit_upper_harmonic(phi, intensities, order):
         return (x[0] + x[1] * np.sin(order * phi)
                 + x[2] * np.cos(order * phi) - intensities)
 
-    return _least_squares_fit(optimize_func, [np.mean(intensities), an, bn])
+    jac = np.transpose([np.ones_like(phi, dtype=float),
+                        np.sin(order * phi), np.cos(order * phi)])
+
+    def jacobian(x):
+        return jac
+
+    return _least_squares_fit(optimize_func, [np.mean(intensities), an, bn],
+                              jacobian=jacobian)
